@@ -3,9 +3,12 @@ package rules
 import (
 	"fmt"
 	"go/ast"
+	"go/token"
 	"go/types"
 	"sort"
 	"strings"
+
+	"golang.org/x/tools/go/packages"
 )
 
 // A type switch over a parameter without a default clause does nothing for a value of any other type, and says so to
@@ -134,4 +137,145 @@ func (c *Ctx) implementers(it *types.Interface) []types.Type {
 		}
 	}
 	return out
+}
+
+// ---------- a type assertion names the form (T or *T) that the package puts behind the interface ----------
+
+// ruleAssertForms: an assertion x.(T) only matches values that were stored as T, not as *T (and the other way round).
+// For every assertion of the library to a named struct type of the module (or a pointer to one): the composite
+// literals of that type which the same package hands to an interface (returned as, assigned to, or passed for an
+// interface type) must all have the asserted form. The other form behind the interface makes the assertion fail: with
+// the comma-ok form the value is silently taken for "something else" (an error that becomes nil), without it the
+// function panics.
+func (c *Ctx) ruleAssertForms(rule string) {
+	r := c.R
+	r.Rule(rule, "every type assertion of the library to a struct type T of the module (or to *T) names the form in which the package stores such values behind interfaces: no composite literal of T that is returned as, assigned to or passed for an interface type has the other form (&T{} against an assertion to T, T{} against an assertion to *T)", 1)
+	type form struct {
+		ptr bool
+		pos token.Pos
+		fn  string
+	}
+	// literals flowing to an interface, per named type
+	flows := map[*types.TypeName][]form{}
+	isIface := func(t types.Type) bool {
+		if t == nil {
+			return false
+		}
+		_, ok := t.Underlying().(*types.Interface)
+		return ok
+	}
+	litOf := func(pk *packages.Package, e ast.Expr) (*types.TypeName, bool) {
+		e = ast.Unparen(e)
+		ptr := false
+		if u, ok := e.(*ast.UnaryExpr); ok && u.Op == token.AND {
+			ptr, e = true, ast.Unparen(u.X)
+		}
+		cl, ok := e.(*ast.CompositeLit)
+		if !ok {
+			return nil, false
+		}
+		if n, ok := pk.TypesInfo.TypeOf(cl).(*types.Named); ok && c.P.IsLibPkg(n.Obj().Pkg()) {
+			return n.Obj(), ptr
+		}
+		return nil, false
+	}
+	for _, f := range c.libFns() {
+		pk := f.Pkg
+		note := func(e ast.Expr, to types.Type) {
+			if !isIface(to) {
+				return
+			}
+			if tn, ptr := litOf(pk, unalias(f, e)); tn != nil {
+				flows[tn] = append(flows[tn], form{ptr, e.Pos(), f.Name()})
+			}
+		}
+		sig := f.Obj.Type().(*types.Signature)
+		inspectWithStack(f.Decl.Body, func(nd ast.Node, stack []ast.Node) bool {
+			switch x := nd.(type) {
+			case *ast.ReturnStmt:
+				// results of the innermost function
+				rs := sig.Results()
+				for i := len(stack) - 1; i >= 0; i-- {
+					if lit, ok := stack[i].(*ast.FuncLit); ok {
+						if ls, ok := pk.TypesInfo.TypeOf(lit).(*types.Signature); ok {
+							rs = ls.Results()
+						}
+						break
+					}
+				}
+				if len(x.Results) == rs.Len() {
+					for i, e := range x.Results {
+						note(e, rs.At(i).Type())
+					}
+				}
+			case *ast.AssignStmt:
+				if len(x.Lhs) == len(x.Rhs) {
+					for i, e := range x.Rhs {
+						note(e, pk.TypesInfo.TypeOf(x.Lhs[i]))
+					}
+				}
+			case *ast.CallExpr:
+				if fs, ok := pk.TypesInfo.TypeOf(x.Fun).(*types.Signature); ok {
+					for i, a := range x.Args {
+						if i < fs.Params().Len() {
+							note(a, fs.Params().At(i).Type())
+						}
+					}
+				}
+			case *ast.ValueSpec:
+				for i, e := range x.Values {
+					if i < len(x.Names) {
+						note(e, pk.TypesInfo.TypeOf(x.Names[i]))
+					}
+				}
+			}
+			return true
+		})
+	}
+	n := 0
+	for _, f := range c.libFns() {
+		pk := f.Pkg
+		perFn := 0
+		ast.Inspect(f.Decl.Body, func(nd ast.Node) bool {
+			ta, ok := nd.(*ast.TypeAssertExpr)
+			if !ok || ta.Type == nil {
+				return true
+			}
+			t := pk.TypesInfo.TypeOf(ta.Type)
+			ptr := false
+			if p, ok := t.(*types.Pointer); ok {
+				ptr, t = true, p.Elem()
+			}
+			nm, ok := t.(*types.Named)
+			if !ok || !c.P.IsLibPkg(nm.Obj().Pkg()) {
+				return true
+			}
+			if _, isStruct := nm.Underlying().(*types.Struct); !isStruct {
+				return true
+			}
+			n++
+			perFn++
+			key := fmt.Sprintf("%s | %s #%d", f.Name(), exprString(ta), perFn)
+			var other []form
+			for _, fl := range flows[nm.Obj()] {
+				if fl.ptr != ptr {
+					other = append(other, fl)
+				}
+			}
+			if len(other) == 0 {
+				r.OkTrivial(rule, key, fmt.Sprintf("%d literal(s) of %s go behind an interface, all in the asserted form", len(flows[nm.Obj()]), nm.Obj().Name()), c.pos(ta.Pos()))
+				return true
+			}
+			want, got := nm.Obj().Name(), "&"+nm.Obj().Name()+"{}"
+			if ptr {
+				want, got = "*"+want, nm.Obj().Name()+"{}"
+			}
+			r.Bad(rule, key, fmt.Sprintf("the assertion matches %s, but %s puts %s behind an interface (%s): such a value fails the assertion - a comma-ok assertion then takes it for something else (an error turns into nil), a plain one panics", want, other[0].fn, got, c.pos(other[0].pos)), c.pos(ta.Pos()))
+			return true
+		})
+	}
+	r.Stats["assertions_to_module_structs"] = n
+	if n == 0 {
+		r.Ok(rule, "library", "no assertion to a struct type of the module", "")
+	}
 }
